@@ -36,6 +36,7 @@ mod executor {
 mod seqops;
 mod slscen;
 mod tscen;
+mod tsetscen;
 
 use std::io::{BufRead, Write};
 
